@@ -309,11 +309,13 @@ pub open spec fn step(st: PState, raw: Seq<u8>) -> PState {
         PState { done: flush(st.done, st.cur), cur: Some(FileV { path: path_of_line(l), entries: Seq::<EntryV>::empty() }), err: false }
     }
 }
-pub open spec fn fold_lines(ls: Seq<Seq<u8>>, n: int) -> PState
+pub open spec fn init_state() -> PState { PState { done: Seq::<FileV>::empty(), cur: None, err: false } }
+pub open spec fn fold_from(st: PState, ls: Seq<Seq<u8>>, n: int) -> PState
     decreases n
 {
-    if n <= 0 { PState { done: Seq::<FileV>::empty(), cur: None, err: false } } else { step(fold_lines(ls, n - 1), ls[n - 1]) }
+    if n <= 0 { st } else { step(fold_from(st, ls, n - 1), ls[n - 1]) }
 }
+pub open spec fn fold_lines(ls: Seq<Seq<u8>>, n: int) -> PState { fold_from(init_state(), ls, n) }
 /// the attestation section of a note: None when a line is malformed
 pub open spec fn parse_section(ls: Seq<Seq<u8>>) -> Option<Seq<FileV>> {
     let st = fold_lines(ls, ls.len() as int);
@@ -324,7 +326,7 @@ pub proof fn lemma_fold_err(ls: Seq<Seq<u8>>, k: int, n: int)
     ensures fold_lines(ls, n).err,
     decreases n - k
 {
-    if k < n { lemma_fold_err(ls, k, n - 1); }
+    if k < n { lemma_fold_err(ls, k, n - 1); assert(fold_lines(ls, n) == step(fold_lines(ls, n - 1), ls[n - 1])); }
 }
 pub open spec fn line_bytes(ls: Seq<&str>) -> Seq<Seq<u8>> { Seq::new(ls.len(), |i: int| ls[i].spec_bytes()) }
 
@@ -526,7 +528,11 @@ impl AuthorshipLog {
 }
 
 // ---------------------------------------------------------------- (2) the serializer
-pub open spec fn needs_q(p: Seq<u8>) -> bool { has_byte(p, 0x20) || has_byte(p, 0x09) || has_byte(p, 0x0a) }
+/// a path is written in quotes when it contains a space, tab or newline (the standard's MUST), and also when it would not
+/// survive the parser unquoted: it starts with a quote, it is the divider line, or it ends in whitespace that trim_end removes
+pub open spec fn needs_q(p: Seq<u8>) -> bool {
+    has_byte(p, 0x20) || has_byte(p, 0x09) || has_byte(p, 0x0a) || (p.len() > 0 && p[0] == 0x22) || p == divider() || trim_len(p) != p.len()
+}
 pub open spec fn quoted(p: Seq<u8>) -> Seq<u8> { seq![0x22u8] + p + seq![0x22u8] }
 /// the standard's path line: quoted when the path contains whitespace
 pub open spec fn path_line(p: Seq<u8>) -> Seq<u8> { if needs_q(p) { quoted(p) } else { p } }
@@ -559,6 +565,11 @@ pub uninterp spec fn json_text(m: AuthorshipMetadata) -> Seq<u8>;
 fn opq_contains(s: &str, c: char) -> (r: bool)
     requires (c as u32) < 128,
     ensures r == has_byte(s.spec_bytes(), c as u8),
+{ unimplemented!() }
+/// `path == "---"`
+#[verifier::external_body]
+fn opq_is_divider(s: &str) -> (r: bool)
+    ensures r == (s.spec_bytes() == divider()),
 { unimplemented!() }
 #[verifier::external_body]
 fn opq_to_vec(v: &[LineRange]) -> (r: Vec<LineRange>)
@@ -612,11 +623,16 @@ fn opq_json_pretty(m: &AuthorshipMetadata) -> (r: Result<String, fmt::Error>)
     ensures r is Ok <==> json_text_ok(*m), r is Ok ==> sb(r->Ok_0) == json_text(*m),
 { unimplemented!() }
 
-//#item file=src/authorship/authorship_log_serialization.rs kind=fn name=needs_quoting opaque='[{"expr": "path.contains(\u0027 \u0027)", "call": "opq_contains(path, \u0027 \u0027)"}, {"expr": "path.contains(\u0027\\t\u0027)", "call": "opq_contains(path, \u0027\\t\u0027)"}, {"expr": "path.contains(\u0027\\n\u0027)", "call": "opq_contains(path, \u0027\\n\u0027)"}]'
+//#item file=src/authorship/authorship_log_serialization.rs kind=fn name=needs_quoting opaque='[{"expr": "path.contains(\u0027 \u0027)", "call": "opq_contains(path, \u0027 \u0027)"}, {"expr": "path.contains(\u0027\\t\u0027)", "call": "opq_contains(path, \u0027\\t\u0027)"}, {"expr": "path.contains(\u0027\\n\u0027)", "call": "opq_contains(path, \u0027\\n\u0027)"}, {"expr": "path.starts_with(\u0027\"\u0027)", "call": "opq_starts_with(path, \u0027\"\u0027)"}, {"expr": "path == \"---\"", "call": "opq_is_divider(path)"}, {"expr": "path.trim_end()", "call": "opq_trim_end(path)"}]'
 fn needs_quoting(path: &str) -> (r_: bool)
 //@     ensures r_ == needs_q(path.spec_bytes()),
 {
-    opq_contains(path, ' ') || opq_contains(path, '\t') || opq_contains(path, '\n')
+    opq_contains(path, ' ')
+        || opq_contains(path, '\t')
+        || opq_contains(path, '\n')
+        || opq_starts_with(path, '"')
+        || opq_is_divider(path)
+        || opq_trim_end(path).len() != path.len()
 }
 //#end
 //#item file=src/authorship/authorship_log_serialization.rs kind=fn name=format_line_ranges opaque='[{"expr": "ranges.to_vec()", "call": "opq_to_vec(ranges)"}, {"expr": "sorted_ranges.sort_by(|a, b| { let a_start = match a { LineRange::Single(line) => *line, LineRange::Range(start, _) => *start, }; let b_start = match b { LineRange::Single(line) => *line, LineRange::Range(start, _) => *start, }; a_start.cmp(&b_start) })", "call": "opq_sort_by_start(&mut sorted_ranges)"}, {"expr": "sorted_ranges .iter() .map(|range| match range { LineRange::Single(line) => line.to_string(), LineRange::Range(start, end) => format!(\"{}-{}\", start, end), }) .collect::<Vec<_>>() .join(\",\")", "call": "opq_render_join(&sorted_ranges)"}]'
@@ -690,6 +706,316 @@ impl AuthorshipLog {
         Ok(output)
     }
 //#end
+}
+
+// ---------------------------------------------------------------- (3) the round trip, as lemmas over the two contracts
+/// TRUSTED (documented behaviour of std, used only by the lemmas below): `u32::to_string` writes decimal digits that
+/// `str::parse::<u32>` reads back; `trim_end` never removes an ASCII byte that is not whitespace and always removes an ASCII
+/// whitespace byte at the end; a sort returns as many elements as it was given.
+pub axiom fn axiom_dec(n: u32)
+    ensures dec(n).len() > 0, forall|i: int| 0 <= i < dec(n).len() ==> 0x30 <= #[trigger] dec(n)[i] <= 0x39, num_ok(dec(n)), num_val(dec(n)) == n;
+pub axiom fn axiom_trim(b: Seq<u8>)
+    ensures 0 <= trim_len(b) <= b.len(),
+        b.len() > 0 && b.last() < 128 ==> (trim_len(b) == b.len() <==> !(b.last() == 0x20 || (0x09 <= b.last() <= 0x0d)));
+pub axiom fn axiom_sorted(rs: Seq<LineRange>)
+    ensures sorted_by_start(rs).len() == rs.len();
+
+pub proof fn lemma_no_byte_prefix(p: Seq<u8>, c: u8)
+    requires !has_byte(p, c), p.len() > 0,
+    ensures !has_byte(p.drop_last(), c), p.last() != c,
+{
+    let p0 = p.drop_last();
+    if has_byte(p0, c) { let i = choose|i: int| 0 <= i < p0.len() && p0[i] == c; assert(p[i] == c); }
+    assert(p[p.len() - 1] == p.last());
+}
+/// appending separator-free bytes extends the last piece
+pub proof fn lemma_split_append(b: Seq<u8>, p: Seq<u8>, c: u8)
+    requires !has_byte(p, c),
+    ensures split_of(b + p, c) == split_of(b, c).drop_last().push(split_of(b, c).last() + p),
+    decreases p.len()
+{
+    lemma_split_nonempty(b, c);
+    let s0 = split_of(b, c);
+    if p.len() == 0 {
+        assert(b + p =~= b); assert(s0.last() + p =~= s0.last()); assert(s0.drop_last().push(s0.last()) =~= s0);
+    } else {
+        let p0 = p.drop_last(); let x = p.last();
+        lemma_no_byte_prefix(p, c);
+        lemma_split_append(b, p0, c);
+        assert((b + p).drop_last() =~= b + p0);
+        assert((b + p).last() == x);
+        let pre = split_of(b + p0, c);
+        assert(pre.drop_last() =~= s0.drop_last());
+        assert(pre.last().push(x) =~= s0.last() + p);
+    }
+}
+pub proof fn lemma_split_sep(b: Seq<u8>, c: u8)
+    ensures split_of(b.push(c), c) == split_of(b, c).push(Seq::<u8>::empty()),
+{
+    assert(b.push(c).drop_last() =~= b);
+}
+pub open spec fn no_sep(ps: Seq<Seq<u8>>, c: u8) -> bool { forall|i: int| 0 <= i < ps.len() ==> !has_byte(#[trigger] ps[i], c) }
+/// splitting what was joined gives the pieces back
+pub proof fn lemma_split_join(ps: Seq<Seq<u8>>, c: u8)
+    requires ps.len() >= 1, no_sep(ps, c),
+    ensures split_of(join_of(ps, c), c) == ps,
+    decreases ps.len()
+{
+    let e = Seq::<u8>::empty();
+    if ps.len() == 1 {
+        lemma_split_append(e, ps[0], c);
+        assert(e + ps[0] =~= ps[0]);
+        assert(split_of(e, c) =~= seq![e]);
+        assert(seq![e].drop_last().push(seq![e].last() + ps[0]) =~= ps);
+    } else {
+        let ps0 = ps.drop_last();
+        assert(no_sep(ps0, c)) by { assert forall|i: int| 0 <= i < ps0.len() implies !has_byte(#[trigger] ps0[i], c) by { assert(ps0[i] == ps[i]); } }
+        lemma_split_join(ps0, c);
+        let j0 = join_of(ps0, c);
+        lemma_split_sep(j0, c);
+        lemma_split_append(j0.push(c), ps.last(), c);
+        assert(join_of(ps, c) =~= j0.push(c) + ps.last());
+        assert(j0 + seq![c] =~= j0.push(c));
+        assert(ps0.push(e).drop_last().push(ps0.push(e).last() + ps.last()) =~= ps);
+    }
+}
+/// the first occurrence is where the byte is, with none before
+pub proof fn lemma_first_idx_at(e: Seq<u8>, c: u8, k: int)
+    requires 0 <= k < e.len(), e[k] == c, forall|j: int| 0 <= j < k ==> (#[trigger] e[j]) != c,
+    ensures first_idx(e, c) == k,
+{
+    lemma_first_idx(e, c);
+    let f = first_idx(e, c);
+    if f > k { assert(e[k] != c); }
+    if f < k { assert(e[f] != c); }
+}
+/// one rendered range parses back to itself
+pub proof fn lemma_piece(r: LineRange)
+    ensures piece_ok(render(r)), piece_val(render(r)) == r, render(r).len() > 0, !has_byte(render(r), 0x2c),
+        0x30 <= render(r).last() <= 0x39,
+{
+    match r {
+        LineRange::Single(l) => {
+            axiom_dec(l);
+            let p = render(r);
+            lemma_first_idx(p, 0x2d);
+            if has_byte(p, 0x2d) { let i = choose|i: int| 0 <= i < p.len() && p[i] == 0x2d; assert(0x30 <= dec(l)[i]); }
+            if has_byte(p, 0x2c) { let i = choose|i: int| 0 <= i < p.len() && p[i] == 0x2c; assert(0x30 <= dec(l)[i]); }
+            assert(0x30 <= dec(l)[dec(l).len() - 1] <= 0x39);
+        }
+        LineRange::Range(a, b) => {
+            axiom_dec(a); axiom_dec(b);
+            let p = render(r);
+            let da = dec(a); let db = dec(b);
+            assert(p.len() == da.len() + 1 + db.len());
+            assert(p[da.len() as int] == 0x2d);
+            assert forall|j: int| 0 <= j < da.len() implies (#[trigger] p[j]) != 0x2d by { assert(p[j] == da[j]); assert(0x30 <= da[j]); }
+            lemma_first_idx_at(p, 0x2d, da.len() as int);
+            assert(p.subrange(0, da.len() as int) =~= da);
+            assert(p.subrange(da.len() as int + 1, p.len() as int) =~= db);
+            if has_byte(p, 0x2c) {
+                let i = choose|i: int| 0 <= i < p.len() && p[i] == 0x2c;
+                if i < da.len() { assert(p[i] == da[i]); assert(0x30 <= da[i]); } else if i > da.len() { assert(p[i] == db[i - da.len() - 1]); assert(0x30 <= db[i - da.len() - 1]); }
+            }
+            assert(p.last() == db[db.len() - 1]); assert(0x30 <= db[db.len() - 1] <= 0x39);
+        }
+    }
+}
+pub proof fn lemma_ranges_rt(rs: Seq<LineRange>, n: int)
+    requires 0 <= n <= rs.len(),
+    ensures ranges_of(renders(rs), n) == Some(rs.subrange(0, n)),
+    decreases n
+{
+    if n > 0 {
+        lemma_ranges_rt(rs, n - 1);
+        lemma_piece(rs[n - 1]);
+        assert(renders(rs)[n - 1] == render(rs[n - 1]));
+        assert(rs.subrange(0, n - 1).push(rs[n - 1]) =~= rs.subrange(0, n));
+    } else {
+        assert(rs.subrange(0, 0) =~= Seq::<LineRange>::empty());
+    }
+}
+/// format_line_ranges' text parses back to the ranges it rendered
+pub proof fn lemma_parse_fmt(rs: Seq<LineRange>)
+    ensures parse_ranges(join_of(renders(rs), 0x2c)) == Some(rs),
+{
+    let ps = renders(rs);
+    if rs.len() == 0 {
+        let e = Seq::<u8>::empty();
+        assert(join_of(ps, 0x2c) =~= e);
+        assert(split_of(e, 0x2c) =~= seq![e]);
+        assert(ranges_of(seq![e], 0) == Some(Seq::<LineRange>::empty()));
+        assert(ranges_of(seq![e], 1) == Some(Seq::<LineRange>::empty()));
+        assert(rs =~= Seq::<LineRange>::empty());
+    } else {
+        assert(no_sep(ps, 0x2c)) by { assert forall|i: int| 0 <= i < ps.len() implies !has_byte(#[trigger] ps[i], 0x2c) by { lemma_piece(rs[i]); } }
+        lemma_split_join(ps, 0x2c);
+        lemma_ranges_rt(rs, rs.len() as int);
+        assert(rs.subrange(0, rs.len() as int) =~= rs);
+    }
+}
+/// the joined text of a non-empty list ends with a digit
+pub proof fn lemma_join_last(rs: Seq<LineRange>)
+    requires rs.len() > 0,
+    ensures join_of(renders(rs), 0x2c).len() > 0, 0x30 <= join_of(renders(rs), 0x2c).last() <= 0x39,
+{
+    let ps = renders(rs);
+    lemma_piece(rs[rs.len() - 1]);
+    assert(ps.last() == render(rs[rs.len() - 1]));
+    if ps.len() > 1 {
+        let j = join_of(ps, 0x2c);
+        assert(j == join_of(ps.drop_last(), 0x2c) + seq![0x2cu8] + ps.last());
+        assert(j.last() == ps.last().last());
+    }
+}
+
+pub open spec fn norm_entry(e: EntryV) -> EntryV { EntryV { hash: e.hash, ranges: sorted_by_start(e.ranges) } }
+pub open spec fn norm_entries(es: Seq<EntryV>) -> Seq<EntryV> { Seq::new(es.len(), |j: int| norm_entry(es[j])) }
+pub open spec fn norm_file(f: FileV) -> FileV { FileV { path: f.path, entries: norm_entries(f.entries) } }
+pub open spec fn norm(fs: Seq<FileV>) -> Seq<FileV> { Seq::new(fs.len(), |i: int| norm_file(fs[i])) }
+/// what a log must satisfy to survive the round trip: hashes without spaces or newlines, every entry lists at least one
+/// range, every file has an entry and a non-empty path without a newline
+pub open spec fn wf_entry(e: EntryV) -> bool { !has_byte(e.hash, 0x20) && !has_byte(e.hash, 0x0a) && e.ranges.len() > 0 }
+pub open spec fn wf_file(f: FileV) -> bool {
+    f.path.len() > 0 && !has_byte(f.path, 0x0a) && f.entries.len() > 0 && forall|j: int| 0 <= j < f.entries.len() ==> wf_entry(#[trigger] f.entries[j])
+}
+pub open spec fn wf_files(fs: Seq<FileV>) -> bool { forall|i: int| 0 <= i < fs.len() ==> wf_file(#[trigger] fs[i]) }
+pub open spec fn entry_line(e: EntryV) -> Seq<u8> { seq![0x20u8, 0x20u8] + e.hash + seq![0x20u8] + fmt_ranges(e.ranges) }
+pub open spec fn entry_lines(es: Seq<EntryV>) -> Seq<Seq<u8>> { Seq::new(es.len(), |j: int| entry_line(es[j])) }
+pub open spec fn file_lines(f: FileV) -> Seq<Seq<u8>> { seq![path_line(f.path)] + entry_lines(f.entries) }
+pub open spec fn att_lines(fs: Seq<FileV>, n: int) -> Seq<Seq<u8>>
+    decreases n
+{
+    if n <= 0 { Seq::<Seq<u8>>::empty() } else { att_lines(fs, n - 1) + file_lines(fs[n - 1]) }
+}
+
+pub proof fn lemma_fold_concat(st: PState, a: Seq<Seq<u8>>, b: Seq<Seq<u8>>, n: int)
+    requires 0 <= n <= b.len(),
+    ensures fold_from(st, a + b, a.len() + n) == fold_from(fold_from(st, a, a.len() as int), b, n),
+    decreases n
+{
+    if n == 0 {
+        lemma_fold_prefix(st, a + b, a, a.len() as int);
+    } else {
+        lemma_fold_concat(st, a, b, n - 1);
+        assert((a + b)[a.len() + n - 1] == b[n - 1]);
+    }
+}
+/// the fold over the first n lines only looks at those lines
+pub proof fn lemma_fold_prefix(st: PState, x: Seq<Seq<u8>>, y: Seq<Seq<u8>>, n: int)
+    requires 0 <= n <= x.len(), n <= y.len(), forall|i: int| 0 <= i < n ==> x[i] == y[i],
+    ensures fold_from(st, x, n) == fold_from(st, y, n),
+    decreases n
+{
+    if n > 0 { lemma_fold_prefix(st, x, y, n - 1); }
+}
+/// an entry line of a well-formed entry adds exactly that entry (ranges sorted) to the file being filled
+pub proof fn lemma_step_entry(st: PState, e: EntryV)
+    requires !st.err, st.cur is Some, wf_entry(e),
+    ensures step(st, entry_line(e)) == (PState { cur: Some(FileV { path: st.cur->Some_0.path, entries: st.cur->Some_0.entries.push(norm_entry(e)) }), ..st }),
+{
+    let h = e.hash; let srt = sorted_by_start(e.ranges); let rtxt = fmt_ranges(e.ranges);
+    let l = entry_line(e);
+    axiom_sorted(e.ranges);
+    lemma_join_last(srt);
+    assert(l.last() == rtxt.last());
+    axiom_trim(l);
+    assert(trimmed(l) =~= l);
+    assert(l[0] == 0x20 && l[1] == 0x20);
+    let body = l.subrange(2, l.len() as int);
+    assert(body =~= h + seq![0x20u8] + rtxt);
+    assert(body[h.len() as int] == 0x20);
+    assert forall|j: int| 0 <= j < h.len() implies (#[trigger] body[j]) != 0x20 by { assert(body[j] == h[j]); }
+    lemma_first_idx_at(body, 0x20, h.len() as int);
+    assert(body.subrange(h.len() as int + 1, body.len() as int) =~= rtxt);
+    assert(body.subrange(0, h.len() as int) =~= h);
+    lemma_parse_fmt(srt);
+}
+/// a path line of a well-formed path closes the previous file and opens this one, with exactly that path
+pub proof fn lemma_step_path(st: PState, p: Seq<u8>)
+    requires !st.err, p.len() > 0, !has_byte(p, 0x0a),
+    ensures step(st, path_line(p)) == (PState { done: flush(st.done, st.cur), cur: Some(FileV { path: p, entries: Seq::<EntryV>::empty() }), err: false }),
+{
+    let l = path_line(p);
+    axiom_trim(l);
+    if needs_q(p) {
+        assert(l.last() == 0x22); assert(l[0] == 0x22);
+        assert(trimmed(l) =~= l);
+        assert(l.subrange(1, l.len() - 1) =~= p);
+    } else {
+        assert(trimmed(l) =~= l);
+        assert(p[0] != 0x20);
+        assert(p[0] != 0x22);
+    }
+}
+pub proof fn lemma_fold_entries(st: PState, es: Seq<EntryV>, n: int)
+    requires !st.err, st.cur is Some, 0 <= n <= es.len(), forall|j: int| 0 <= j < es.len() ==> wf_entry(#[trigger] es[j]),
+    ensures fold_from(st, entry_lines(es), n) == (PState { cur: Some(FileV { path: st.cur->Some_0.path, entries: st.cur->Some_0.entries + norm_entries(es).subrange(0, n) }), ..st }),
+    decreases n
+{
+    let f0 = st.cur->Some_0;
+    if n == 0 {
+        assert(f0.entries + norm_entries(es).subrange(0, 0) =~= f0.entries);
+    } else {
+        lemma_fold_entries(st, es, n - 1);
+        let mid = fold_from(st, entry_lines(es), n - 1);
+        assert(wf_entry(es[n - 1]));
+        lemma_step_entry(mid, es[n - 1]);
+        assert(entry_lines(es)[n - 1] == entry_line(es[n - 1]));
+        assert((f0.entries + norm_entries(es).subrange(0, n - 1)).push(norm_entry(es[n - 1])) =~= f0.entries + norm_entries(es).subrange(0, n));
+    }
+}
+pub proof fn lemma_fold_file(st: PState, f: FileV)
+    requires !st.err, wf_file(f),
+    ensures fold_from(st, file_lines(f), file_lines(f).len() as int) == (PState { done: flush(st.done, st.cur), cur: Some(norm_file(f)), err: false }),
+{
+    let a = seq![path_line(f.path)];
+    let b = entry_lines(f.entries);
+    lemma_fold_concat(st, a, b, b.len() as int);
+    assert(fold_from(st, a, 1) == step(fold_from(st, a, 0), a[0]));
+    lemma_step_path(st, f.path);
+    let st1 = fold_from(st, a, 1);
+    lemma_fold_entries(st1, f.entries, f.entries.len() as int);
+    assert(Seq::<EntryV>::empty() + norm_entries(f.entries).subrange(0, f.entries.len() as int) =~= norm_entries(f.entries));
+}
+pub proof fn lemma_fold_files(fs: Seq<FileV>, n: int)
+    requires wf_files(fs), 0 <= n <= fs.len(),
+    ensures
+        n == 0 ==> fold_lines(att_lines(fs, n), att_lines(fs, n).len() as int) == init_state(),
+        n > 0 ==> fold_lines(att_lines(fs, n), att_lines(fs, n).len() as int) == (PState { done: norm(fs).subrange(0, n - 1), cur: Some(norm_file(fs[n - 1])), err: false }),
+    decreases n
+{
+    if n > 0 {
+        lemma_fold_files(fs, n - 1);
+        let a = att_lines(fs, n - 1); let b = file_lines(fs[n - 1]);
+        lemma_fold_concat(init_state(), a, b, b.len() as int);
+        let st = fold_lines(a, a.len() as int);
+        assert(wf_file(fs[n - 1]));
+        lemma_fold_file(st, fs[n - 1]);
+        if n == 1 {
+            assert(flush(st.done, st.cur) =~= norm(fs).subrange(0, 0));
+        } else {
+            assert(wf_file(fs[n - 2]));
+            assert(norm_file(fs[n - 2]).entries.len() > 0);
+            assert(norm(fs).subrange(0, n - 2).push(norm_file(fs[n - 2])) =~= norm(fs).subrange(0, n - 1));
+        }
+    }
+}
+/// ROUND TRIP (attestation section): the lines the serializer writes for a well-formed attestation list parse back to the
+/// same files, hashes and ranges (each entry's ranges in the serializer's sorted order)
+pub proof fn theorem_section_roundtrip(fs: Seq<FileV>)
+    requires wf_files(fs),
+    ensures parse_section(att_lines(fs, fs.len() as int)) == Some(norm(fs)),
+{
+    let n = fs.len() as int;
+    lemma_fold_files(fs, n);
+    if n == 0 {
+        assert(flush(init_state().done, init_state().cur) =~= norm(fs));
+    } else {
+        assert(wf_file(fs[n - 1]));
+        assert(norm_file(fs[n - 1]).entries.len() > 0);
+        assert(norm(fs).subrange(0, n - 1).push(norm_file(fs[n - 1])) =~= norm(fs));
+    }
 }
 
 } // verus!
